@@ -106,6 +106,44 @@ func (r *rpcSide) send(t tikvrpc.CmdType, pb interface{}, c kvrpcpb.Context) (re
 	return resp, ""
 }
 
+// scanLockCanon: the canonical answer of a ScanLock response (TxnSize cross-checked against the stored lock)
+func scanLockCanon(st *mocktikv.MVCCLevelDB, x *kvrpcpb.ScanLockResponse) string {
+	if x.Error != nil {
+		return keyErr(x.Error)
+	}
+	p := make([]string, len(x.Locks))
+	for i, l := range x.Locks {
+		p[i] = lockInfo(l)
+		if stored, _, err := st.ZZDumpKey(l.Key); err != nil || stored == nil || stored.TxnSize != l.TxnSize {
+			p[i] += "!txnsize"
+		}
+	}
+	return "K[" + strings.Join(p, ";") + "]"
+}
+
+// scanLockHandler sends "slh s e limit max" (ScanLockRequest with start key, end key, limit) through handleKvScanLock
+// of a one-region cluster built around st: the MVCCStore interface has no such call, the logic lives in the handler.
+func scanLockHandler(st *mocktikv.MVCCLevelDB, f []string) (res string) {
+	defer func() {
+		if x := recover(); x != nil {
+			res = "panic:" + fmt.Sprint(x)
+		}
+	}()
+	cl := mocktikv.NewCluster(st)
+	storeID, peerID, regionID := mocktikv.BootstrapWithSingleStore(cl)
+	reg, _ := cl.GetRegion(regionID)
+	c := kvrpcpb.Context{RegionId: regionID, RegionEpoch: reg.RegionEpoch, Peer: &metapb.Peer{Id: peerID, StoreId: storeID}}
+	req := tikvrpc.NewRequest(tikvrpc.CmdScanLock, &kvrpcpb.ScanLockRequest{StartKey: kb(pu(f[1])), EndKey: kb(pu(f[2])), Limit: uint32(pu(f[3])), MaxVersion: pu(f[4])}, c)
+	resp, err := mocktikv.NewRPCClient(cl, st, nil).SendRequest(context.Background(), cl.GetStore(storeID).Address, req, time.Second)
+	if err != nil {
+		return "senderr:" + err.Error()
+	}
+	if re, _ := resp.GetRegionError(); re != nil {
+		return "regionerr:" + re.String()
+	}
+	return scanLockCanon(st, resp.Resp.(*kvrpcpb.ScanLockResponse))
+}
+
 func kerrs(es []*kvrpcpb.KeyError) string {
 	p := make([]string, len(es))
 	for i, e := range es {
@@ -216,6 +254,13 @@ func (r *rpcSide) effective(c string) (eff string, wantPanic bool) {
 		g := append([]string{}, f...)
 		g[2] = hx(minEnd(pu(f[2]), hi))
 		return strings.Join(g, " "), !r.contains(pu(f[1]))
+	case "slh": // the request's window clipped to the region (since 9f23e58); the limit is kept
+		g := append([]string{}, f...)
+		if lo > pu(f[1]) {
+			g[1] = hx(lo)
+		}
+		g[2] = hx(minEnd(pu(f[2]), hi))
+		return strings.Join(g, " "), false
 	case "rl", "br", "sl", "gc": // the request carries no range: the whole region
 		g := append([]string{}, f...)
 		g[1], g[2] = hx(lo), hx(hi)
@@ -367,6 +412,10 @@ func (r *rpcSide) exec(c string) string {
 			}
 			return "K[" + strings.Join(p, ";") + "]"
 		})
+	case "slh":
+		req := &kvrpcpb.ScanLockRequest{StartKey: kb(pu(f[1])), EndKey: kb(pu(f[2])), Limit: uint32(pu(f[3])), MaxVersion: pu(f[4])}
+		resp, e := r.send(tikvrpc.CmdScanLock, req, r.ctx(nil, false))
+		return done(resp, e, func() string { return scanLockCanon(r.st, resp.Resp.(*kvrpcpb.ScanLockResponse)) })
 	case "gc":
 		req := &kvrpcpb.GCRequest{SafePoint: pu(f[3])}
 		resp, e := r.send(tikvrpc.CmdGC, req, r.ctx(nil, false))
